@@ -11,5 +11,6 @@ print(regen.regenerate())
 lib.regen_coqproject()
 "
 cd coq
-timeout 3000 make -j16
+# keep going: each check (re)builds the cone it needs and reports a broken obligation itself
+timeout 3000 make -k -j16 || echo "setup: some files did not build (the checks that need them will say so)"
 echo "setup ok"
